@@ -39,6 +39,9 @@ CLAIMED = {
  "C09": ("exploration", "exhaustive enumeration of a path menu x all split sets of size <= 2 (3) over a menu of arc-length positions",
          "All paths of the menu (every segment type, two-segment combinations, closed, multi-subpath) x all subsets of split positions {0, L/4, L/2, 3L/4, L, vertex arc lengths, vertex +- 1e-3}: Length within 1 % of the dense arc length, pieces consecutive and geometrically the input, lengths summing to Length, cuts at the requested arc lengths; Reverse an involution preserving length/bounds/closedness and negating the winding at all decidable probes.",
          "trusted: internal/oracle dense arc length; cut tolerance 1e-9*L on straight prefixes, max(1 % of curved length, 1e-3) after curved segments; two known findings (exact-cusp cubic, long eccentric arc)", "DESIGN.md §3 C09"),
+ "C03": ("exploration", "exhaustive enumeration of all lattice quadratics, cubics and canonical arcs, two-segment chains and two-subpath paths x a tolerance menu against dense curve evaluation",
+         "All 2401 quadratics ([-3..3]^4), 15625 cubics ([-2..2]^6, incl. cusps, loops, inflections, collinear and coincident control points), 7680 canonical arcs, all 2-segment chains over a 12-curve menu and 2-subpath paths x tolerances {1,0.1,0.01} (thorough +0.001, coordinate scales 0.01 and 100): Flatten keeps structure/end points/closedness, every vertex within t of the curve in curve order, every curve point within c*t of the polyline; ReplaceArcs within 3e-3 rx; XMonotone pieces x-monotone and the same point set.",
+         "trusted: internal/oracle/curves.go; c = max(2, 1.3 x the maximum observed once per (shape class, t/scale) cell on the pinned tree, /verif/calibration.json) for the classes whose error/t is bounded, c = 2 otherwise; four known findings keyed by input-only predicates (collinear/closed Beziers, cusps, ellipse arcs, one cubic family at a coarse tolerance)", "DESIGN.md §3 C03"),
 }
 CUSTOM_CMD = {"C20": ("scripts/check_c20.sh quick", "scripts/check_c20.sh thorough")}
 REASON_PENDING = "check not built yet in this session (planned in DESIGN.md §9); not claimed until it exists and is green"
